@@ -104,6 +104,8 @@ def rule_digest(F):
         raise AnchorError("process_file: effect sites not found (INV=%s VAL=%s OUT=%s)" % (INV, VAL, OUT))
     oks = _ok_exits(b)
     _digest_protocol(res, b, INV, VAL, OUT, oks, "process_file")
+    # (h) the up-to-date return is taken only on a comparison of the stored digest with the digest of the current source
+    _skip_needs_comparison(res, b, oks, INV, {"build::read_digest": "STORED", "build::digest_source": "CURRENT"}, ("STORED", "CURRENT"), "process_file")
     res.sample({"fn": "process_file", "INV": INV, "VAL": VAL, "OUT": OUT, "ok_exits": oks})
     # ---------------- compile_component_rlib
     c = F.one("build::compile_component_rlib")
@@ -164,6 +166,8 @@ def rule_digest(F):
             res.ok()
         else:
             res.bad("M-DIGEST:compile_component_rlib:skip-condition", c.where(sk), "the component is skipped without both the digest comparison and rlib_path.exists()")
+    _skip_needs_comparison(res, c, oks, INV, {"build::parse_digest_hex": "STORED", "build::digest_source": "CURRENT", "std::path::Path::exists": "EXISTS"},
+                           ("STORED", "CURRENT", "EXISTS"), "compile_component_rlib", only=skip)
     if not skip:
         res.notes.append("compile_component_rlib has no skip return")
     res.sample({"fn": "compile_component_rlib", "INV": INV, "VAL": VAL, "OUT": OUT, "ok_exits": oks, "skip": skip})
@@ -238,6 +242,39 @@ def OUT_process_file_component(F):
         if short(callee(t)) == "build::compile_component_rlib" or _closure_args_reaching(F, b, t, "build::compile_component_rlib"):
             out.append(bb)
     return out
+
+
+def _skip_needs_comparison(res, b, oks, INV, sources, need, fname, only=None):
+    """Every Ok return that is not preceded by an invalidation is control-dependent on values derived from all of `need`:
+    some switch dominating it (and deciding it: only one successor reaches it without passing INV) has a discriminant that
+    carries the label; all labels must be covered by such switches."""
+    srcs = {}
+    for bb, tm in b.calls():
+        lab = sources.get(short(callee(tm)))
+        if lab:
+            srcs[tm["dest"][0]] = lab
+    if set(srcs.values()) != set(sources.values()):
+        raise AnchorError("%s: digest sources %s not all found (%s)" % (fname, sorted(sources.values()), sorted(set(srcs.values()))))
+    t = Taint(b, srcs)
+    exits = [x for x in oks if not any(b.dominates(i, x) for i in INV)]
+    if only is not None:
+        exits = [x for x in exits if x in only]
+    for x in exits:
+        covered = set()
+        for sw, bl in enumerate(b.blocks):
+            tt = bl["t"]
+            if tt["k"] != "switch" or not b.dominates(sw, x):
+                continue
+            succs = b.succ(sw)
+            reach = [s_ for s_ in succs if x in b.reach([s_], avoid=set(INV))]
+            if len(reach) < len(succs):
+                covered |= t.read_op(tt["d"])
+        missing = [n for n in need if n not in covered]
+        if missing:
+            res.bad("M-DIGEST:%s:skip-not-decided-by:%s" % (fname, "+".join(missing)), b.where(x),
+                    "%s returns Ok without rebuilding on a path that is not decided by %s" % (fname, ", ".join(missing)))
+        else:
+            res.ok()
 
 
 def _digest_protocol(res, b, INV, VAL, OUT, oks, fname):
